@@ -76,6 +76,9 @@ def evalTmpl (t : J) (env : Bs) : Except LErr J :=
          | none => .error "script"
        | _, _ => .error "script")
     | some (.str "echo") => .ok (.obj env)
+    -- `Env.AddFact(id, fact)`: the value is the id; the effect on the location is applied by the caller of the
+    -- event model (Driver/Loc.lean), which turns a refused add into a failed action
+    | some (.str "addfact") => .ok ((Obj.get? o "id").getD .null)
     | some (.str "throw") => .error "script"
     | _ => .error "script"
   | _ => .error "script"
